@@ -9,26 +9,54 @@ NOTE_COMMON = ("Trusted: go/ssa lowering, the gosmt interpreter (validated each 
                "Claim holds only within the case-split ranges, buffer sizes and unwinding limits written to the evidence file; ")
 
 claimed = {
+ "C01": dict(
+   text="Bounded symbolic execution of the negotiation kernel of BOTH roles composed in one run, on the real makeClientHello, supportedVersionsFromMax/mutualVersion, processClientHello (ALPN, certificate selection, key kinds), server pickCipherSuite, pickProtocolVersion and processServerHello of both stacks: client and server cipher-suite lists are nil or 1..2 (quick) / 1..3 (thorough) ARBITRARY 16-bit ids (all equality patterns, duplicates, unknown ids), 0..2 client key pairs, server keys able / unable to sign / decrypt, 8 representative ALPN list pairs: both sides continue exactly when a suite exists that both enabled and have keys for and ALPN is compatible, and then hold the same suite = first in the documented priority order, same version, same ALPN. Plus: every Config field equals the corresponding field of Clone(), and a required client certificate is enforced (C07 certs harness).",
+   note=NOTE_COMMON + "outside: that both Handshake() calls return over a real transport and the end-to-end echo with real ciphers (needs two concurrent endpoints and real crypto; record path is C04-C06), peer-certificate list equality (C02/C07 x509 harnesses cover what each side installs); the hello codecs are assumed to be the identity on negotiated fields (C14).",
+   ref="section 6 C01"),
  "C02": dict(
-   text="Bounded symbolic execution of the client's real ServerKeyExchange processing for both key-exchange families (tlcp and dtlcp): for every ServerKeyExchange body up to the stated length and every certificate list of 0..3 entries with arbitrary key types, acceptance implies that the signature was verified exactly once with the SIGNING certificate's key over client_random || server_random || (uint24 len || encryption certificate | ServerECDHParams) and that the verdict was honoured. Thin so far: the whole-handshake lemmas of DESIGN.md section 6 C02 (certificate chain options, Finished, resumption) are being added.",
-   note=NOTE_COMMON + "E8/E10: SM2 verification is a stub with an arbitrary verdict whose arguments are logged; certificates are objects with arbitrary Raw bytes and key types.",
+   text="Bounded symbolic execution of the client's real code: (a) the whole clientHandshake state machine under cut M against a symbolic peer that chooses one of ten message kinds at every read (full and resumed, 0..2 client key pairs, arbitrary cached session): completion implies the certificate check ran with a positive verdict (full: verifyServerCertificate; resumed: the session's certificates under the current configuration), the ServerKeyExchange signature was verified, the accepted Finished equals all 12 bytes of PRF(master, 'server finished', transcript) with master derived from this handshake's pre-master secret or the cached master secret, and every failing path leaves handshakeStatus 0; (b) the real verifyServerCertificate / verifySessionCertificates over an X.509 stub: both certificates verified with configured roots, time and server name, rest as intermediates, both verdicts honoured, fewer than 2 certificates rejected; (c) the real processServerKeyExchange of both key-exchange families: signature checked with the SIGNING certificate's key over client_random || server_random || parameters. Both stacks for (b),(c); tlcp for (a).",
+   note=NOTE_COMMON + "E8-E11 stubs: signature / X.509 verdicts are arbitrary and their arguments logged; the correctness of smx509 and SM2 themselves is trusted; the enumerated impostor catalogue with real certificates is subsumed by the arbitrary verdicts.",
    ref="section 6 C02"),
+ "C03": dict(
+   text="Bounded symbolic execution of both real handshake state machines (tlcp, cut M) against a symbolic peer: on every completing path the bytes fed to the Finished transcript are exactly the handshake messages in wire order (sent ones as marshalled, received ones as delivered) up to the peer's Finished, the accepted Finished equals all 12 bytes of the PRF output over that transcript, ChangeCipherSpec immediately precedes the peer's Finished, exactly one ChangeCipherSpec is sent; the record layer accepts a ChangeCipherSpec only when expected, with body 01 and no partial handshake message pending (real readRecordOrCCS on an arbitrary stream). No panic on any explored path. Together with collision-free hash/PRF (assumed) equal Finished values imply identical transcripts, hence identical views.",
+   note=NOTE_COMMON + "E4/E5 idealisation (equal PRF outputs => equal transcripts) is assumed, not decided; DTLCP handshake state machines are not yet driven (their record and codec layers are).",
+   ref="section 6 C03"),
  "C04": dict(
-   text="Bounded symbolic execution of (a) the client's pre-master secret construction (48 bytes = offered version || 46 bytes from Rand, encrypted to the server's ENCRYPTION certificate, ClientKeyExchange framing; ECDHE needs the signed temporary key) and (b) through the C05 stream harness, that record header lengths are consistent with the bytes written. Thin so far: PRF/key-block/record-MAC equivalence lemmas of DESIGN.md section 6 C04 are being added.",
-   note=NOTE_COMMON + "E9: SM2 encryption / key agreement are stubs returning arbitrary bytes with logged arguments.",
+   text="Bounded symbolic execution, equivalence against a reference written from GB/T 38636 6.5 with HMAC-SM3/SM3 as shared uninterpreted functions, both stacks: master secret = PRF(pre, 'master secret', client||server)[:48]; key block = PRF(master, 'key expansion', server||client) cut as client MAC, server MAC, client key, server key, client IV, server IV for the four suites; Finished = PRF(master, label, SM3(transcript))[:12]; establishKeys of both roles installs the peer's write keys for reading (CBC reader gets a decrypter); the client's pre-master secret = offered version || 46 random bytes encrypted to the ENCRYPTION certificate; in the handshake drivers the Finished PRF is keyed with the master secret derived in this handshake (or the cached one on resumption) and one key expansion happens per connection; record header lengths are consistent.",
+   note=NOTE_COMMON + "E4/E5/E9 idealisations; gmsm's SM2/SM3/SM4, crypto/hmac, crypto/cipher are trusted; MAC-input / nonce / additional-data equivalence of the record layer is covered indirectly by the C05 stream harness (a sender/receiver mismatch or a missing authenticated field shows there), nonce uniqueness rests on incSeq (+1 or panic).",
    ref="section 6 C04"),
  "C05": dict(
    text="Bounded symbolic execution of the real Write -> attacker -> Read path of the stream stack for SM4-GCM and SM4-CBC: 2 genuine application records from the sender's real write path, then an ARBITRARY attacker stream (arbitrary type/version/contents, record lengths case-split around the genuine lengths; GCM up to 3 records, CBC 1 (quick) / 2 (thorough)), then 3-4 Reads with buffers of 1-2 bytes: bytes handed out are a prefix of the genuine plaintext, in order; after the first error every Read fails with no bytes. Plus extractPadding == the TLS 1.0 padding specification for every payload of 0..48 (quick) / 0..300 (thorough) bytes, both stacks.",
    note=NOTE_COMMON + "E5-E7: ideal AEAD, CBC as identity, HMAC as an unforgeable uninterpreted function; timing side channels are outside this technique.",
    ref="section 6 C05"),
+ "C06": dict(
+   text="Bounded symbolic execution of the real stream stack: (a) two post-handshake Conns joined by a byte queue (GCM and CBC, ideal crypto): 1..2 (3) writes of 0..2 (4) arbitrary bytes, optional Close, transport delivering whole or segmented (1 byte / half / all for the first 4 (6) transport reads), reads with buffers 1..2 (3): every Write reports its full length, bytes read equal bytes written in order, EOF only after the last byte; (b) the FIRST record writeRecordLocked emits from an ARBITRARY pre-state (bytesSent, packetsSent arbitrary below 2^62, dynamic sizing on/off, none/GCM/CBC, payload length 1..70000 symbolic): plaintext <= 16384, ciphertext <= 16384+2048, header length matches, maxPayloadSizeForWrite in [1,16384]; being inductive over the pre-state this covers every record of every write.",
+   note=NOTE_COMMON + "E5-E7; contents checked on small writes only (sizes by the inductive lemma); counters assumed below 2^62.",
+   ref="section 6 C06"),
+ "C07": dict(
+   text="Bounded symbolic execution of the server's real code: (a) the whole serverHandshake state machine (tlcp, cut M) against a symbolic client for the six policies, ECC/ECDHE, arbitrary cached session: CertificateRequest sent iff policy > NoClientCert or ECDHE; a non-empty peer-certificate list implies CertificateVerify was demanded and verified with certificate 0's key over the transcript up to and including ClientKeyExchange; verifiedChains set only after chain verification; a session is resumed only if the current policy would have allowed it and its certificates are re-verified; (b) the real processCertsFromClient of both stacks over an X.509 stub: required => present, ECDHE => two certificates, verification with ClientCAs, configured time and the right key usages, verdicts honoured.",
+   note=NOTE_COMMON + "E8, E10, E11 stubs with arbitrary verdicts.",
+   ref="section 6 C07"),
+ "C08": dict(
+   text="Bounded symbolic execution of both real handshake state machines (tlcp, cut M) against a peer that chooses one of ten message kinds (or an error) at every read, ECC and ECDHE, full and resumed, sequences up to 12 reads: completion implies the sequence of kinds consumed is exactly the legal one (client: SH, Cert, SKX, [CertReq], SHD, CCS, Fin | SH, CCS, Fin; server: CH, [Cert iff requested], CKE, [CertVerify iff certificate sent], CCS, Fin | CH, CCS, Fin); plus the real record layer before completion: application data refused, ChangeCipherSpec only when expected, empty handshake records refused, at most 16 consecutive non-advancing records.",
+   note=NOTE_COMMON + "signature / Finished / X.509 verdicts are arbitrary so that a deviating peer 'keeps its keys and transcript consistent'.",
+   ref="section 6 C08"),
  "C09": dict(
-   text="Bounded symbolic execution, panic events checked at every index/slice/type-assertion/nil dereference: all 9 (tlcp) + 10 (dtlcp) unmarshal functions on arbitrary byte strings (0..16/24 bytes, hellos 0..50/58), framed strings for the reverse-codec harnesses, every key-exchange processing function of both roles on arbitrary bodies and certificate key types, the DTLCP fragment buffer on hostile offsets/lengths. Thin so far: record-layer progress and memory-bound lemmas of DESIGN.md section 6 C09 are being added.",
-   note=NOTE_COMMON + "E8-E10 stubs for public-key primitives and certificates.",
+   text="Bounded symbolic execution with every index / slice bound / type assertion / nil dereference / division as a checked panic event: all 9+10 unmarshal functions on arbitrary bytes (0..16/24, hellos 0..50/58 bytes), framed strings, every key-exchange processing function of both roles on arbitrary bodies and certificate key types, fragment buffer on hostile 24-bit offsets, the record layer on arbitrary streams (every accepted record consumes input, 17th non-advancing record is refused), post-handshake handshake records do not accumulate (tlcp), and no panic on any path of the handshake drivers, x509 and stream harnesses.",
+   note=NOTE_COMMON + "E1, E5-E10; DTLCP readHandshake fragment-iteration and pending-buffer bounds are not yet covered.",
    ref="section 6 C09"),
+ "C10": dict(
+   text="Bounded symbolic execution of both real handshake state machines (tlcp, cut M) with an arbitrary session cache content (E11): client resumes iff a session was offered and the ServerHello echoes its id, then version and suite match the session, the cached master secret keys both Finished values, the recorded peer identity is restored (after re-verification), exactly one key expansion with this connection's randoms happens; otherwise a full handshake with no dependence on the stale session; new sessions are stored under both keys with a private 48-byte master secret only after the peer's Finished verified; a failed handshake drops the offered session under both keys and caches nothing. Server: resumes only with a cached session of the same version whose suite the client still offers and the configuration still enables, echoes the id, otherwise full handshake with a 32-byte id drawn from Rand; failed handshakes cache nothing.",
+   note=NOTE_COMMON + "histories are covered by the arbitrary cache content rather than by enumerating connection sequences; DTLCP state machines not yet driven.",
+   ref="section 6 C10"),
  "C11": dict(
    text="Bounded symbolic execution of the real lruSessionCache (with the real container/list) of both stacks against a reference LRU written in the harness: capacity 1..3 (quick) / 1..4 (thorough), 4 / 5 operations, each an arbitrary choice of Put(new) / Put(object already stored under another key: the createNewSession aliasing pattern) / Put(nil) / Get(k) / Get(\"\"), keys arbitrary one-byte strings (every equality pattern): size bound, agreement with the reference after every operation, stored master secrets intact. NewLRUSessionCache(n) for every n.",
    note=NOTE_COMMON + "sessions are identified by content, not by pointer; the 'concurrent use is equivalent to some sequential order' clause is not decided (single goroutine; see C13).",
    ref="section 6 C11"),
+ "C12": dict(
+   text="Bounded symbolic execution of the real stream stack with ideal crypto: transport end at EVERY byte offset of a stream of 1..2 data records and an optional close_notify: io.EOF only on a record boundary or after close_notify and only after every earlier byte was delivered, io.ErrUnexpectedEOF inside a record; after EOF later Reads keep failing; Close then Close => net.ErrClosed, Write after Close fails; before the handshake completes application data is refused with a latched error; every failing path of both handshake drivers leaves handshakeStatus 0; the C05 stream harness shows read errors are sticky.",
+   note=NOTE_COMMON + "cancellation of the handshake context (goroutine + channels) is outside the technique; Write after a RECEIVED fatal alert is not required to fail (as in crypto/tls).",
+   ref="section 6 C12"),
  "C14": dict(
    text="Bounded symbolic execution of every handshake codec of both stacks (real cryptobyte code included): forward unmarshal(marshal(m)) == m for arbitrary in-range fields with bounded list sizes, every ClientHello extension one at a time and all at once; reverse: arbitrary bytes framed as readHandshake frames them, accept => re-encoding reproduces the input (extension-free forms of the hellos); totality: no panic on arbitrary bytes.",
    note=NOTE_COMMON + "framing precondition of unmarshal (type byte and 24-bit length as readHandshake guarantees); hellos WITH extension blocks are covered in the forward direction and for totality only.",
